@@ -263,6 +263,26 @@ def f_ocmp(fns, F):
     if up(need(fns, "=_QUALIFIER_COMPARATORS")) != "{RepeatQualifier: repeats_cmp, WithinQualifier: within_cmp, StartStopQualifier: startstop_cmp}":
         raise TranslateError("_QUALIFIER_COMPARATORS: unrecognised table")
     F["ocmp_cases"] = "TypeThenContentsQualifierFirst"
+    if text(need(fns, "repeats_cmp")) != ["return generic_constant_cmp(qual1.times_to_repeat, qual2.times_to_repeat)"]:
+        helper = text(need(fns, "repeats_cmp"))
+        if not (len(helper) == 1 and helper[0].startswith("return ") and "qual1.times_to_repeat, qual2.times_to_repeat" in helper[0]):
+            raise TranslateError("repeats_cmp: unrecognised text")
+    w = need(fns, "within_cmp")
+    wt = text(w)
+    if wt == ["return generic_constant_cmp(qual1.number_of_seconds, qual2.number_of_seconds)"]:
+        F["within_cmp"] = "WithinExact"
+    else:
+        # a helper that converts the number of seconds with int(): the fraction of the window is lost
+        b = _strip_doc(w.body)
+        callee = up(b[0].value.func) if len(b) == 1 and isinstance(b[0], ast.Return) and isinstance(b[0].value, ast.Call) else None
+        if callee in fns and [up(a) for a in b[0].value.args] == ["qual1.number_of_seconds", "qual2.number_of_seconds"] \
+                and any(isinstance(n, ast.Call) and up(n.func) == "int" for n in ast.walk(fns[callee])):
+            F["within_cmp"] = "WithinTruncated"
+        else:
+            raise TranslateError("within_cmp: unrecognised text")
+    if text(need(fns, "startstop_cmp")) != [
+            "return iter_lex_cmp((qual1.start_time, qual1.stop_time), (qual2.start_time, qual2.stop_time), generic_constant_cmp)"]:
+        raise TranslateError("startstop_cmp: unrecognised text")
 
 
 CHAIN_TEXT = ["changed = False",
@@ -777,6 +797,8 @@ def translate(repo, _py=None):
         "(* both DNF transformers transform the terms they have just built again *)",
         "Definition src_dnf_redistributes_c : bool := %s." % F["dnf_c_recursive"],
         "Definition src_dnf_redistributes_o : bool := %s." % F["dnf_o_recursive"],
+        "(* within_cmp: the numbers of seconds compared as they are *)",
+        "Definition src_within_cmp : within_kind := %s." % F["within_cmp"],
         "(* simple_comparison_expression_cmp: the fields compared, in order *)",
         "Definition src_atom_steps : list astep := %s." % coq_list(F["atom_steps"]),
         "(* _dupe_ast (comparison level): what the duplicate of a comparison is built from *)",
